@@ -103,6 +103,24 @@ func verifC13Faults() {
 	verifCover("c13/faults")
 }
 
+// short writes: write(2) may transfer any non-empty prefix; AtomicCreate must still install exactly
+// data (longer data than the other harnesses, so that several partial writes are needed), and a
+// crash anywhere in the sequence still leaves old-or-new.
+func verifC13ShortWrites() {
+	fs, root := verifC13Setup()
+	dir, name := "d0", "a"
+	path := root + "/" + dir + "/" + name
+	old := verifNondetBytes("old", 2)
+	verifKernelPlantFile(path, old, 2)
+	data := verifNondetBytes("data", 3+verifChoose(3))
+	verifKernelShortWrite(true)
+	p := verifTry(func() { fs.AtomicCreate(dir, name, data) })
+	verifKernelShortWrite(false)
+	verifAssert("shortwrite/returns", !p)
+	verifAssert("shortwrite/content", verifStateIs(path, true, data))
+	verifCover("c13/shortwrite")
+}
+
 // (v) calls for different (dir,name) touch disjoint kernel paths; (durability order) fsync precedes rename.
 func verifC13Disjoint() {
 	fs, root := verifC13Setup()
